@@ -37,6 +37,7 @@ type Ver interface {
 	Compare(o Ver) int
 	String() string
 	Raw() any
+	OwnCopy() Ver
 }
 
 // Rng is a parsed range of some ecosystem.
@@ -60,6 +61,23 @@ type ver[V univers.Version[V]] struct{ v V }
 func (a ver[V]) Compare(o Ver) int { return a.v.Compare(o.(ver[V]).v) }
 func (a ver[V]) String() string    { return a.v.String() }
 func (a ver[V]) Raw() any          { return a.v }
+
+// OwnCopy returns a version whose object is a struct copy owned by the caller (what `x := *v` gives a caller who keeps
+// a Version by value); nil when the underlying type is not a pointer to a struct.
+func (a ver[V]) OwnCopy() (out Ver) {
+	defer func() {
+		if recover() != nil {
+			out = nil
+		}
+	}()
+	src := reflect.ValueOf(a.v)
+	if src.Kind() != reflect.Ptr || src.IsNil() || src.Elem().Kind() != reflect.Struct {
+		return nil
+	}
+	nv := reflect.New(src.Type().Elem())
+	nv.Elem().Set(src.Elem())
+	return ver[V]{nv.Interface().(V)}
+}
 
 type rng[V univers.Version[V], R univers.VersionRange[V]] struct{ r R }
 
